@@ -8,10 +8,13 @@ import RFV.Model.Avx
 import RFV.Model.Spec
 import RFV.Model.Validate
 import RFV.Model.Fp
+import RFV.Model.FpFin
 import RFV.Model.Cache
 import RFV.Model.Decision
 import RFV.Model.Exec
 import RFV.Model.Ops
+import RFV.Model.MulRem
+import RFV.Model.Loops
 
 open RFV
 
@@ -40,6 +43,12 @@ def builtTree (planner : String) (ty : ElemTy) (n : Nat) : Except String Recipe 
   | "avx-noavx2" => (avxPlanAndConstruct ty false (planFuel n) [] n).map (·.1)
   | _ => .error "bad planner"
 
+/-- the hypotheses of `gpCtx_lawful` that can be checked cheaply at run time: `8 ∣ N`, `N ∣ p - 1`, `ω^N = 1`, and
+`ω^(N/q) ≠ 1` for every prime `q ∣ N` (so the order of ω is exactly N); primality of `p` by trial division -/
+def gpParamsOk (p N w : Nat) : Bool :=
+  N % 8 == 0 && p ≥ 2 && (p - 1) % N == 0 && isPrimeNat p && modPow w N p == 1 &&
+    (distinctPrimeFactors N).all (fun q => modPow w (N / q) p != 1)
+
 /-- `fp;p;N;omega;fwd|inv;tree;re im re im …` -/
 def answerFp (fields : List String) : String :=
   match fields with
@@ -49,7 +58,9 @@ def answerFp (fields : List String) : String :=
       let vs := (vals.splitOn " ").filterMap (fun (s : String) => s.toNat?)
       if (t.spec .other).toOption.isNone then "CTOR-PANIC" else
       if t.len = 0 then "" else
-      " ".intercalate ((runFp p n w (dir == "inv") t vs).map toString)
+      -- the proved instance (Model/FpFin.lean, Proofs/FpLawful.lean); its number-theoretic side conditions are re-checked here
+      if !(gpParamsOk p n w) then "BAD-FIELD-PARAMETERS" else
+      " ".intercalate ((runGpD p n w (dir == "inv") t vs).map toString)
     | _, _, _, _ => "bad-op"
   | _ => "bad-op"
 
@@ -88,7 +99,55 @@ def answerHist (fields : List String) : String :=
       " # ".intercalate (go PlannerState.empty reqs)
   | _ => "bad-op"
 
+def natList (s : String) : List Nat := (s.splitOn " ").filterMap (fun (x : String) => x.toNat?)
+def fmtNats (l : List Nat) : String := " ".intercalate (l.map toString)
+
+/-- `loops;<op>;…`: the literal index loops of Model/Loops.lean on the identity input `0..len` (output pre-filled with 999999) -/
+def answerLoops (fields : List String) : String :=
+  let ident (len : Nat) : Array Nat := (List.range len).toArray
+  let fill (len : Nat) : Array Nat := Array.replicate len 999999
+  let shw (r : Option (Array Nat)) : String := match r with | some a => fmtNats a.toList | none => "PANIC"
+  match fields with
+  | [_, "bitrev", d, h, len] =>
+    match d.toNat?, h.toNat?, len.toNat? with
+    | some d, some h, some len => shw (Loops.bitreversedTranspose d h (ident len) (fill len))
+    | _, _, _ => "bad-op"
+  | [_, "factr", h, fs] =>
+    match h.toNat? with
+    | some h =>
+      let fs := natList fs
+      let len := h * fs.foldl (· * ·) 1
+      let tf := Loops.transposeFactors fs
+      let d := match tf.head? with | some x => x.1 | none => 2
+      shw (Loops.factorTranspose d h (ident len) (fill len) tf)
+    | none => "bad-op"
+  | [_, "gtin", w, h] =>
+    match w.toNat?, h.toNat? with
+    | some w, some h =>
+      let (gw, gh) := if w > h then (h, w) else (w, h)
+      match Loops.reindexInput gw gh (ident (w * h)) (fill (w * h)) with
+      | some a => s!"{gw} {gh} | {fmtNats a.toList}"
+      | none => "PANIC"
+    | _, _ => "bad-op"
+  | [_, "gtout", w, h] =>
+    match w.toNat?, h.toNat? with
+    | some w, some h =>
+      let (gw, gh) := if w > h then (h, w) else (w, h)
+      match Loops.reindexOutput gw gh (ident (w * h)) (fill (w * h)) with
+      | some a => s!"{gw} {gh} | {fmtNats a.toList}"
+      | none => "PANIC"
+    | _, _ => "bad-op"
+  | [_, "gtsmall", w, h] =>
+    match w.toNat?, h.toNat? with
+    | some w, some h =>
+      match Loops.gtSmallInverses w h with
+      | some (wInv, hInv) => fmtNats (Loops.gtSmallInputMap w h ++ Loops.gtSmallOutputMap w h wInv hInv)
+      | none => "PANIC"
+    | _, _ => "bad-op"
+  | _ => "bad-op"
+
 def answer (line : String) : String :=
+  if line.startsWith "loops;" then answerLoops (line.trimAscii.toString.splitOn ";") else
   if line.startsWith "hist;" then answerHist (line.trimAscii.toString.splitOn ";") else
   if line.startsWith "fp;" then answerFp (line.trimAscii.toString.splitOn ";") else
   match line.trimAscii.toString.splitOn " " with
@@ -159,7 +218,7 @@ def answer (line : String) : String :=
         | "MixedRadix" => some .mixedRadix | "MixedRadixSmall" => some .mixedRadixSmall
         | "GoodThomas" => some .goodThomas | "GoodThomasSmall" => some .goodThomasSmall
         | "Raders" => some .raders | "Bluesteins" => some (.bluesteins len)
-        | "RadixN" => some .radixLike | "Radix4" => some .radixLike | "Radix3" => some .radixLike
+        | "RadixN" => some .radixN | "Radix4" => some .radix4 | "Radix3" => some .radix3
         | _ => none
       let en : Option EntryKind := match entry with
         | "inplace" => some .inplace | "oop" => some .oop | "immut" => some .immut | _ => none
@@ -174,6 +233,14 @@ def answer (line : String) : String :=
         s!"adv={adv} | " ++ "; ".intercalate ((calls al en len s0 s1 adv).map Call.text)
       | _, _ => "bad-op"
     | _ => "bad-op"
+  | ["mulrem", a, b, d] =>
+    match a.toNat?, b.toNat?, d.toNat? with
+    | some a, some b, some d => mulRemLine a b d
+    | _, _, _ => "bad-op"
+  | ["mulremscan", b, d, lo, hi] =>
+    match b.toNat?, d.toNat?, lo.toNat?, hi.toNat? with
+    | some b, some d, some lo, some hi => mulRemScanLine b d lo hi
+    | _, _, _, _ => "bad-op"
   | ["ops", "scalar", n] =>
     match n.toNat? with
     | some n => fmtExcept ((planScalar n).map (fun r => toString r.ops))
